@@ -289,6 +289,13 @@ def proof_step(pid, thorough=False):
             out['ok'] = False
             out['log'].append('coqchk failed')
         out['checker_cmd'] += ' ; coqchk -o CiwV.Properties.%s' % pid
+        if os.path.exists(pf2):
+            r = subprocess.run('timeout 1200 coqchk -silent -o %s CiwV.Properties.%s_stage2' % (qflags, pid), shell=True, cwd=COQ, capture_output=True, text=True)
+            out['coqchk_stage2'] = (r.stdout + r.stderr)[-1200:]
+            if r.returncode != 0:
+                out['ok'] = False
+                out['log'].append('coqchk failed on the stage-2 statements')
+            out['checker_cmd'] += ' ; coqchk -o CiwV.Properties.%s_stage2' % pid
     return out
 
 
